@@ -367,6 +367,8 @@ class Engine:
         self.path_log = None
         self.unknown_labels = []
         self.const_hash = False
+        self.xcheck_left = 0
+        self.xchecks = []
         self.cache = {}         # harness-owned, survives across the paths of this engine
         if self.symbolic:
             self.solver = z3.Solver()
@@ -600,6 +602,13 @@ class Engine:
         r = self._check(neg)
         if r == z3.unsat:
             self.stats.discharged += len(sym)
+            if self.xcheck_left > 0:
+                # keep the query for the second solver (cross-check of the encoding, DESIGN §1.8)
+                self.xcheck_left -= 1
+                s2 = z3.Solver()
+                s2.add(self.solver.assertions())
+                s2.add(neg)
+                self.xchecks.append((sym[0][0], s2.to_smt2()))
             return True
         if r == z3.unknown:
             self.stats.unknown += len(sym)
